@@ -50,18 +50,6 @@ theorem publish_complete (calls : List Call) (snap : Snap) (h : snap ∈ publish
     have : (a.1, true) ∈ snap.srs := (hw.srDone a.1).mpr (List.mem_map.mpr ⟨a, ha, rfl⟩)
     exact List.mem_map.mpr ⟨_, this, rfl⟩
 
-/-- reachable store states -/
-def Reachable (s : St) : Prop := ∃ calls, s = finalState St.init calls
-
-theorem reachable_inv {s : St} (h : Reachable s) : ∃ hist, Inv hist s := by
-  obtain ⟨calls, rfl⟩ := h
-  suffices ∀ (cs hist : List Call) (s : St), Inv hist s → ∃ hist', Inv hist' (finalState s cs) from
-    this calls [] St.init (inv_init [])
-  intro cs
-  induction cs with
-  | nil => intro hist s hi; exact ⟨hist, hi⟩
-  | cons c t ih => intro hist s hi; exact ih _ _ (step_inv hi c).1
-
 /-- An acknowledgement is *bad* if nothing is pending, it names another id, or its sender is not expected
 or has already acknowledged. -/
 def badAck (s : St) : Call → Prop
